@@ -455,6 +455,8 @@ impl Model {
         // First try specialized optimization (Step 2.4 precision handling)
         match self.try_optimization_minimize(&objective) {
             Some(mut solution) => {
+                #[cfg(selen_verif)]
+                crate::verif_hooks::note_fast_path_taken();
                 // Optimization succeeded - update with minimal stats since no search was performed
                 // Note: propagators_count will be set after prepare_for_search in fallback path
                 solution.stats = crate::core::solution::SolveStats {
@@ -625,6 +627,8 @@ impl Model {
         // First try specialized optimization before falling back to opposite+minimize pattern
         match self.try_optimization_maximize(&objective) {
             Some(mut solution) => {
+                #[cfg(selen_verif)]
+                crate::verif_hooks::note_fast_path_taken();
                 // Optimization succeeded - update with minimal stats since no search was performed
                 solution.stats = crate::core::solution::SolveStats {
                     propagation_count: 0,
@@ -1730,6 +1734,11 @@ impl Model {
     /// Try to solve minimization using specialized optimization algorithms
     /// Returns Some(solution) if optimization succeeds, None if should fall back to search
     fn try_optimization_minimize(&self, objective: &impl View) -> Option<Solution> {
+        // Verification hook H4: the optimisation fast path can be switched off
+        #[cfg(selen_verif)]
+        if crate::verif_hooks::fast_path_disabled() {
+            return None;
+        }
         // Attempt optimization using the router
         match self.optimization_router.try_minimize(&self.vars, &self.props, objective) {
             OptimizationAttempt::Success(solution) => Some(solution),
@@ -1747,6 +1756,11 @@ impl Model {
     /// Try to solve maximization using specialized optimization algorithms  
     /// Returns Some(solution) if optimization succeeds, None if should fall back to search
     fn try_optimization_maximize(&self, objective: &impl View) -> Option<Solution> {
+        // Verification hook H4: the optimisation fast path can be switched off
+        #[cfg(selen_verif)]
+        if crate::verif_hooks::fast_path_disabled() {
+            return None;
+        }
         // Attempt optimization using the router
         match self.optimization_router.try_maximize(&self.vars, &self.props, objective) {
             OptimizationAttempt::Success(solution) => Some(solution),
